@@ -448,6 +448,29 @@ fn stream<'a, S: UnwindContextStorage<usize>>(eh: &EhFrame<R<'a>>, bases: &BaseA
         }
         Err(e) => out.push(format!("err {}", crate::ctx::err_name(&e))),
     }
+    // second walk: stop at the first failing next_row and ask the table for its current row.
+    // A row is current only after a successful next_row; after a failure (capacity or other)
+    // there is none - a half-built row handed out here would be a silently wrong row.
+    let mut uctx: UnwindContext<usize, S> = UnwindContext::new_in();
+    if let Ok(mut t) = fde.rows(eh, bases, &mut uctx) {
+        let mut k = 0;
+        let failed = loop {
+            k += 1;
+            if k > 4 * n + 64 {
+                break false;
+            }
+            match t.next_row() {
+                Ok(Some(_)) => {}
+                Ok(None) => break false,
+                Err(_) => break true,
+            }
+        };
+        if failed {
+            if let Some(r) = t.into_current_row() {
+                out.push(format!("current_row_after_error {}", row_string(r)));
+            }
+        }
+    }
     out
 }
 
@@ -497,6 +520,10 @@ pub fn run(case: &Case, ctx: &mut Ctx<'_>) {
     ctx.item();
     ctx.enter("cap.unbounded");
     let u = stream::<Unbounded>(&eh, &bases, &fde, n);
+    if let Some(last) = u.last().filter(|s| s.starts_with("current_row_after_error")) {
+        ctx.violate("c06_row_after_error", format!("unbounded storage: into_current_row after a failed next_row: `{}`", last));
+        return;
+    }
     for l in u.iter().take(40) {
         ev!(ctx, "U {}", l);
     }
@@ -620,6 +647,10 @@ pub fn run(case: &Case, ctx: &mut Ctx<'_>) {
         (5, 1, Arr), (5, 2, Arr), (5, 4, Arr), (5, 191, Boxed), (5, 192, Boxed), (5, 193, Boxed)
     );
     for (rows, rules, kind, l) in &all {
+        if let Some(last) = l.last().filter(|s| s.starts_with("current_row_after_error")) {
+            ctx.violate("c06_row_after_error", format!("storage {}<{},{}>: into_current_row after a failed next_row: `{}`", kind, rows, rules, last));
+            return;
+        }
         let cap_err = |s: &String| s == "err StackFull" || s == "err TooManyRegisterRules";
         let first_cap = l.iter().position(cap_err);
         // (a) + (b)
